@@ -129,7 +129,8 @@ func ZZH_C13_StyleAndNumberingRefs() {
 			d.GetStyleManager().RemoveStyle("Heading" + zzvItoa(rm))
 		case 2:
 			id := "Custom" + zzvItoa(i)
-			d.GetStyleManager().AddStyle(&style.Style{Type: "paragraph", StyleID: id, Name: &style.StyleName{Val: id}})
+			// a style of a solver-chosen type, or one whose type was left unset (as quick styles are)
+			d.GetStyleManager().AddStyle(&style.Style{Type: [...]string{"paragraph", "", "numbering"}[zzvChoice(3)], StyleID: id, Name: &style.StyleName{Val: id}})
 			p := d.AddParagraph("c")
 			p.SetStyle(id)
 			if saved {
@@ -139,10 +140,7 @@ func ZZH_C13_StyleAndNumberingRefs() {
 		case 3:
 			d.AddListItem("l", &ListConfig{Type: zzhListTypes[zzvChoice(3)], BulletSymbol: BulletTypeDot, StartNumber: zzvIntIn(1, 9), IndentLevel: 0})
 		case 4:
-			if !saved {
-				zzhSavedPackage(d, "first save")
-				saved = true
-			}
+			// nothing: only the optional save below
 		case 5:
 			t, err := d.AddTable(&TableConfig{Rows: 1, Cols: 1, Width: 1000})
 			zzvAssume(err == nil && t != nil)
@@ -162,6 +160,12 @@ func ZZH_C13_StyleAndNumberingRefs() {
 				redefined = "Redefined" + zzvItoa(i)
 				d.GetStyleManager().AddStyle(&style.Style{Type: "paragraph", StyleID: "Quote", Name: &style.StyleName{Val: redefined}})
 			}
+		}
+		// an intermediate save between any two calls (so: content, save, more content of the same
+		// kind, save again)
+		if i < k-1 && !saved && zzvBool() {
+			zzhSavedPackage(d, "first save")
+			saved = true
 		}
 	}
 	label := "save"
